@@ -256,7 +256,7 @@ def ref_apply(v, o, st):
         if d is not None and n in d[3] and d[3][n][0] == 'd' and not d[3][n][3]: del d[3][n]
     elif k == 'open':
         f = vget(v, o['p'])
-        if f is not None and f[0] == 'f' and o['fl'] == 'wt': f[2][:] = b''
+        if f is not None and f[0] == 'f' and open_flags(o['fl'])[1]: f[2][:] = b''
     elif k == 'write':
         f = vget(v, o['p'])
         if f is not None and f[0] == 'f':
@@ -310,7 +310,9 @@ def coq_op(o):
     if k == 'unlink': return 'OUnlink %s' % p
     if k == 'rmdir': return 'ORmdir %s' % p
     if k == 'rename': return 'ORename %s %s' % (p, coq_path(o['q']))
-    if k == 'open': return 'OOpen %s %s' % (p, {'r': 'OF_R', 'w': 'OF_W', 'rw': 'OF_RW', 'wt': 'OF_WT', 'a': 'OF_A'}[o['fl']])
+    if k == 'open':
+        acc, t, a, cr, x = open_flags(o['fl'])
+        return 'OOpen %s (mkOF %s %s %s %s %s)' % (p, {'r': 'ARD', 'w': 'AWR', 'rw': 'ARW'}[acc], *('true' if b else 'false' for b in (t, a, cr, x)))
     if k == 'write': return 'OWrite %s %d %s' % (p, o['off'], coq_bytes(o['data']))
     if k == 'chmod': return 'OChmod %s %d' % (p, o['mode'])
     if k == 'truncate': return 'OTruncate %s %d' % (p, o['size'])
@@ -397,7 +399,7 @@ def parse_output(out):
         elif w[0] == 'end': cur['done'] = True
     return res
 
-COQ_HEADER = ('From Coq Require Import List String NArith Bool Uint63.\nFrom FB Require Import Lib.Hex Model.Overlay.\n'
+COQ_HEADER = ('From Coq Require Import List String NArith Bool Uint63.\nFrom FB Require Import Lib.Hex Model.Overlay Model.OverlayEval.\n'
               'Import ListNotations.\nLocal Open Scope string_scope.\nLocal Open Scope N_scope.\n')
 
 def shash(s):
@@ -546,9 +548,20 @@ def replay_input(c, k=None):
             'ops': [{a: (b.hex() if isinstance(b, (bytes, bytearray)) else b) for a, b in o.items()} for o in ops],
             'harness_input': case_lines(dict(c, ops=ops))}
 
+def open_flags(fl):
+    """'r' | 'w' | 'rw' [ '+' subset of t(runc) a(ppend) c(reat) x(excl) ]  (legacy: 'wt', 'a') -> (access, trunc, append, creat, excl)"""
+    if fl == 'wt': fl = 'w+t'
+    if fl == 'a': fl = 'w+a'
+    acc, _, bits = fl.partition('+')
+    return acc, 't' in bits, 'a' in bits, 'c' in bits, 'x' in bits
+def open_readonly(fl):
+    """the copy-up test of OverlayFs::open: flags & (O_APPEND|O_CREAT|O_TRUNC|O_RDWR|O_WRONLY) == 0"""
+    acc, t, a, cr, x = open_flags(fl)
+    return acc == 'r' and not (t or a or cr)
+
 # ---------------------------------------------------------------- shared exploration driver
 MODIFYING = {'create', 'mkdir', 'mknod', 'symlink', 'link', 'unlink', 'rmdir', 'write', 'chmod', 'truncate', 'setxattr', 'removexattr', 'rename'}
-def modifying(o): return o['k'] in MODIFYING or (o['k'] == 'open' and o['fl'] != 'r')
+def modifying(o): return o['k'] in MODIFYING or (o['k'] == 'open' and not open_readonly(o['fl']))
 
 def corpus_cases(prop, restart):
     """hand-written regression inputs (the defects' minimal witnesses and the design's targeted shapes)"""
@@ -609,9 +622,37 @@ def pattern_cases(restart, full=False):
                        'layers': layers, 'restart': restart, 'ops': []})
     return cs
 
-def explore(prop, seed, n, restart, bindir, tag, with_corpus=True, patterns=False):
+def open_flag_cases(restart):
+    """Deterministic enumeration of OPEN flag words: access mode {O_RDONLY, O_WRONLY, O_RDWR} x every subset of
+    {O_TRUNC, O_APPEND, O_CREAT, O_EXCL} (48 words), each applied to a lower-only file, an upper-only file, a file
+    copied up beforehand and a file under a lower-only directory, each open followed by a read of the file; once with
+    an upper layer and once without (lower-only file and file under a lower-only directory).  The harness compares the
+    raw dump of every lower directory after every step; results and payloads of all steps and the final view are compared."""
+    import itertools
+    cs = []
+    def F(data, ino): return ['f', 0o644, bytearray(data), {}, ino]
+    for acc in ('r', 'w', 'rw'):
+        for k in range(16):
+            bits = ''.join(b for i, b in enumerate('tacx') if k >> i & 1)
+            fl = acc + ('+' + bits if bits else '')
+            lower = lambda: ('d', 0o755, {}, {'a': F(b'lower-a', 801), 'c': F(b'lower-c', 802), 'd': ('d', 0o755, {}, {'f': F(b'lower-df', 803)})})
+            ops = [{'k': 'chmod', 'p': 'c', 'mode': 0o640}]
+            for f in ('a', 'b', 'c', 'd/f'):
+                ops += [{'k': 'open', 'p': f, 'fl': fl}, {'k': 'read', 'p': f, 'off': 0, 'len': 16}]
+            cs.append({'id': 'o1%s' % fl.replace('+', '_'), 'upper': True, 'nlow': 1, 'restart': restart,
+                       'layers': {0: ('d', 0o755, {}, {'b': F(b'upper-b', 804)}), 1: lower()},
+                       'ops': [dict(o, dump=(i == len(ops) - 1)) for i, o in enumerate(ops)]})
+            ops = []
+            for f in ('a', 'd/f'):
+                ops += [{'k': 'open', 'p': f, 'fl': fl}, {'k': 'read', 'p': f, 'off': 0, 'len': 16}]
+            cs.append({'id': 'o0%s' % fl.replace('+', '_'), 'upper': False, 'nlow': 1, 'restart': restart,
+                       'layers': {1: lower()}, 'ops': [dict(o, dump=(i == len(ops) - 1)) for i, o in enumerate(ops)]})
+    return cs
+
+def explore(prop, seed, n, restart, bindir, tag, with_corpus=True, patterns=False, open_flags_enum=False):
     r = random.Random(seed)
     cases = ((corpus_cases(prop, restart) if with_corpus else []) + (pattern_cases(restart, full=(patterns == 'full')) if patterns else [])
+             + (open_flag_cases(restart) if open_flags_enum else [])
              + [gen_case(r, str(i), restart) for i in range(n)])
     obs = run_harness(cases, bindir, tag)
     good = []; bad_harness = []
@@ -662,6 +703,7 @@ def locate_tie(name, cases, obs):
     return [parse_first_bad(v) for v in vals]
 
 def is_pattern(c): return c['id'].startswith('p3') or c['id'].startswith('p4')
+def is_flagcase(c): return c['id'].startswith('o0') or c['id'].startswith('o1')
 def expr_pattern(c, ob):
     u, ls = coq_layers(c)
     return '(check_pattern %s %s %s)' % (u, ls, coq_hash(ob['view0']))
